@@ -255,7 +255,7 @@ impl<'a, G: AffineRepr> Iterator for AggregatedGensIter<'a, G> {
     type Item = &'a G;
 
     fn next(&mut self) -> Option<Self::Item> {
-        if self.gen_idx >= self.n {
+        while self.party_idx < self.m && self.gen_idx >= self.n {
             self.gen_idx = 0;
             self.party_idx += 1;
         }
